@@ -74,7 +74,11 @@ def gen_world(rng, i, tier):
     if rng.chance(0.15):
         w["single"] = True
         fid += 1
-        nodes.append({"p": "$ROOT/some/dir/%s.conf" % base, "t": "f", "entries": contents(rng, fid, shape, dl[2], ml)})
+        # an absolute file of any name: with a suffix, without any dot in the whole path (/etc/shells, /etc/fstab),
+        # a dot only in a directory name, a leading or a trailing dot
+        w["single_path"] = rng.pick(["$ROOT/some/dir/%s.conf" % base, "$ROOT/some/dir/%s.conf" % base, "$ROOT/some/dir/shells", "$ROOT/etc/fstab",
+                                     "$ROOT/some.d/dir/shells", "$ROOT/some/dir/.hidden", "$ROOT/some/dir/name."])
+        nodes.append({"p": w["single_path"], "t": "f", "entries": contents(rng, fid, shape, dl[2], ml)})
     else:
         w["single"] = False
         for layer in ("$ROOT" + w["rootsub"] + "/usr/etc", "$ROOT" + w["rootsub"] + "/etc"):
@@ -125,7 +129,7 @@ def build_plans(world):
     arg_d, lib_d, _ = world["delim"]
     cm = world["comment"]
     base = world["base"]
-    target = ("$ROOT/some/dir/%s.conf" % base) if world["single"] else "%s.conf" % base
+    target = world.get("single_path", "$ROOT/some/dir/%s.conf" % base) if world["single"] else "%s.conf" % base
     common = ["--delimiters=" + arg_d, "--comment=" + cm]
     rs = world.get("rootsub", "")
     env = {"ECONFTOOL_ROOT": "$ROOT" + rs, "ASAN_OPTIONS": "exitcode=77:detect_leaks=0:replace_str=0:intercept_strlen=0:intercept_strchr=0:intercept_strndup=0", "UBSAN_OPTIONS": "print_stacktrace=1:halt_on_error=1:exitcode=77", "HOME": "$ROOT/home"}
